@@ -105,4 +105,8 @@ def zipAllB {α β : Type} (p : α → β → Bool) : List α → List β → Bo
   | a :: as, b :: bs => p a b && zipAllB p as bs
   | _, _ => false
 
+def nodupL : List Name → Bool
+  | [] => true
+  | x :: xs => !xs.contains x && nodupL xs
+
 end Scfg
